@@ -117,6 +117,7 @@ func (p *Path) exec(in ssa.Instruction) {
 		case *types.Map:
 			hh, hv := env.mapHeaps(u)
 			p.usedMem = true
+			p.guardMap(i.X, false, p.fx.site(i, "lookup"))
 			has := fmt.Sprintf("(select (select %s %s) %s)", p.heap(hh), x.T, k.T)
 			val := fmt.Sprintf("(ite %s (select (select %s %s) %s) %s)", has, p.heap(hv), x.T, k.T, env.zeroOf(u.Elem()))
 			vn := p.fx.fresh("mv")
@@ -138,6 +139,7 @@ func (p *Path) exec(in ssa.Instruction) {
 		p.assume(fmt.Sprintf("(not (= %s nil))", m.T))
 		mt := i.Map.Type().Underlying().(*types.Map)
 		hh, hv := env.mapHeaps(mt)
+		p.guardMap(i.Map, true, site)
 		p.frameCheck(site, []Loc{{Heap: hh, Addr: m.T, MapRow: true}})
 		p.setHeap(hh, fmt.Sprintf("(store %s %s (store (select %s %s) %s true))", p.heap(hh), m.T, p.heap(hh), m.T, k.T))
 		p.setHeap(hv, fmt.Sprintf("(store %s %s (store (select %s %s) %s %s))", p.heap(hv), m.T, p.heap(hv), m.T, k.T, v.T))
@@ -278,6 +280,8 @@ func (p *Path) frameCheck(site string, locs []Loc) {
 			f = "false"
 		case l.MapRow:
 			f = fmt.Sprintf("(or (> (stamp %s) now_0) %s)", l.Addr, p.modCond(l.Heap, l.Addr))
+		case l.Region && l.Inner > 0:
+			f = fmt.Sprintf("(or (> (stamp %s) now_0) (forall ((k Int) (j Int)) (=> (and (<= %s k) (< k %s) (<= 0 j) (< j %d)) %s)))", l.Addr, l.Lo, l.Hi, l.Inner, p.modCond(l.Heap, fmt.Sprintf("(idx (idx %s k) j)", l.Addr)))
 		case l.Region:
 			wrap := func(a string) string {
 				if l.FieldFn != "" {
@@ -362,5 +366,12 @@ func (p *Path) guardCheck(addr ssa.Value, write bool, site string) {
 	// nested: field of a guarded embedded struct
 	if inner, ok := fa.X.(*ssa.FieldAddr); ok {
 		p.guardCheck(inner, write, site)
+	}
+}
+
+// guardMap: the contents of a map that was loaded directly from a guarded location are guarded like it.
+func (p *Path) guardMap(m ssa.Value, write bool, site string) {
+	if ld, ok := m.(*ssa.UnOp); ok && ld.Op == token.MUL {
+		p.guardCheck(ld.X, write, site)
 	}
 }
